@@ -3,6 +3,7 @@ import TorchDataVerif.Proofs.MPUEpoch
 import TorchDataVerif.Proofs.MPUnFinal
 import TorchDataVerif.Proofs.MPUnNoAssert
 import TorchDataVerif.Proofs.MPUnIterFinal
+import TorchDataVerif.Proofs.MPUSnapRun
 /-!
 # MPU — the multi-process protocol beyond one in-order epoch (serving C03, C17, C10)
 
@@ -315,5 +316,51 @@ theorem multi_epoch_unordered (c : Cfg) (hp : c.persistent = true) (hv : c.WF) (
   rw [he]
   exact ⟨unordered_safe c hv hio as' s0 hnr hr0 hd0,
     fun hstop => (unordered_complete c hv hio as' s0 hnr hr0 hd0 hstop).2⟩
+
+/-! ## Part C — `take_snapshot_assertion_holds`, iterable datasets, `in_order = True` -/
+
+/-- **C05/C10 `take_snapshot_assertion_holds`, iterable** — the statement left open in `Props/MP.lean`
+(`take_snapshot_assertion_holds_iter_statement`), at full strength: for iterable datasets with
+`in_order = True` the assertion `main_snapshot_idx == rcvd_idx - 1` of `_take_snapshot` never fires, for
+every snapshot interval, every schedule, every arrival order of results and end-of-shard notices, any
+number of dead tasks, and — unlike map-style — also with failing fetches.
+The window argument: entries of `_task_info` that are not stored notices number at most `W·P` (each
+`_try_put_index` follows the removal of one, or the arrival of a notice, which stops counting), so a task
+dispatched at `_num_yielded = d` is yielded as batch `≤ d + 1 + W·P`; if that batch number is a multiple
+of the interval then `d % interval + 1 + W·P ≥ interval`, i.e. the task's main snapshot was recorded at
+dispatch, and since the deque is increasing in the task index, popping up to `rcvd_idx - 1` ends on it. -/
+theorem take_snapshot_assertion_holds_iter : take_snapshot_assertion_holds_iter_statement := by
+  intro c hv hit hio as s hnr hr hd
+  obtain ⟨Z0, hZ0⟩ := init_SW c hit
+  rcases run_SW c hv.2 hit hio as (init c) s hnr
+    (Or.inl ⟨init_invI c hv hit hio, by rw [init_obs]; simp, Z0, hZ0⟩) hr with ⟨_, h, _⟩ | h
+  · exact h
+  · exact absurd h hd
+
+/-- **C10 `error_position`, iterable, full strength** (consequence): with `in_order = True` the consumer's
+observations are exactly a prefix of the reference stream with the failing fetches replaced by the error
+— no hypothesis on the assertion any more — and the whole stream once `next()` has stopped. -/
+theorem error_position_iter (c : Cfg) (hv : c.ValidI) (hit : c.iterable = true) (hio : c.inOrder = true)
+    (as : List Action) (s : State) (hnr : NoReset as) (hr : run c (init c) as = some s) (hd : ¬ died s) :
+    (∃ n, taskObs s.obs = ((refStream c).take n).map expected) ∧
+    (Obs.stop ∈ s.obs → taskObs s.obs = (refStream c).map expected ∧ yields s.obs = oks (refStream c)) := by
+  have ha := take_snapshot_assertion_holds_iter c hv hit hio as s hnr hr hd
+  exact ⟨error_position_prefix_iter c hv hit hio as s hnr hr hd ha,
+    fun hstop => epoch_complete_iter c hv hit hio as s hnr hr hd ha hstop⟩
+
+/-- Non-vacuity (Part C): interval 2, two workers, prefetch factor 1, a failing fetch (which does not advance
+`_num_yielded`) and an empty shard: the snapshots at yields 2 and 4 are taken, no assertion. -/
+def exS : Cfg :=
+  { W := 2, P := 1, interval := 2, inOrder := true, iterable := true, persistent := false
+    shards := [[.ok 0, .err, .ok 2, .ok 3, .ok 4], []], batches := [] }
+
+def exSRun : List Action :=
+  [.work 0, .work 1, .next, .recv, .next, .recv, .work 0, .recv, .next, .work 0, .recv, .next, .work 0, .recv,
+   .next, .work 0, .recv, .next, .work 0, .recv, .stateDict]
+
+example : exS.ValidI ∧ exS.iterable = true ∧ exS.inOrder = true ∧ NoReset exSRun ∧
+    (run exS (init exS) exSRun).map (·.obs) =
+      some [.item 0, .error, .item 2, .item 3, .item 4, .stop, .sd 4 0 0 6 [⟨5, false⟩, ⟨0, true⟩]] := by
+  refine ⟨⟨⟨by decide, by decide⟩, rfl⟩, rfl, rfl, by simp [NoReset, exSRun], by decide⟩
 
 end TDV.MPU
